@@ -19,6 +19,30 @@ T = {
  "C12": ("vexec", "runtime monitoring with fault injection at hook points (held cascade + shutdown, crash images)",
   "For generated graphs the delete cascade is interrupted at every kind of point it has (before it starts, after k steps, journal/apply gap of the delete, at its end) by engine shutdown or by taking a crash image of the data directory, then recovered; after settle, after recovery and after a further restart no current graph query may involve the deleted node unless it was linked again, and all other edges must equal the model. Fault enumeration over the cascade's step boundaries on explored graphs.",
   "Crash = process death modelled by a sparse copy of the data dir taken inside the process after an AOF flush; cascade progress observed through verifhook points."),
+ "C02": ("vexec", "runtime monitoring with fault injection: crash images at hook points, torn log tails, crash during recovery; per-item oracle against the recorded model states",
+  "While generated histories run, a hook handler copies the data directory (as a process death would leave it) at every step boundary of snapshot / compaction / index drop / import commit / delete cascade and at sampled journal/apply gaps of all mutating operations; images taken right after a writer flush are additionally torn at byte offsets inside the bytes just appended, and recovery itself is interrupted after a tail repair. Every recovered image must open, every item must equal a value it held between its durable floor and the operation in flight, the directory must be a fixed point under reopen and under further writes + restart. Fault enumeration over the reachable hook points of explored histories.",
+  "Crash model = process death (page-cache contents, user-space buffers lost). Durable floors derived from the documented flush behaviour. D36 (crash inside VCompress) is a recorded known finding with a guard."),
+ "C08": ("vexec", "runtime monitoring: reference filter evaluator over generated metadata histories in several provenances",
+  "A from-scratch evaluator of the documented filter semantics is compared with VFilter (set equality) and VSearch-with-filter (subset) on generated OR-of-AND expressions after generated update histories (type changes, merges, deletes, re-adds, vacuum), in every provenance of the same logical state: live, log replay, compaction + restart, snapshot + restart, after compression, and after further updates on the restored state.",
+  "Numeric-looking strings, non-float64 Go numbers and keywords inside quoted literals are a lenient class (counted, not asserted): the property does not settle them."),
+ "C09": ("vexec", "runtime monitoring: from-scratch BM25 and fusion reference over generated corpora and histories",
+  "Reference BM25 (k1=1.2, b=0.75) computed from the current field values read back through VGet is compared to 1e-9 with FindIDsByTextSearch (exact document set, scores, order) and, in the exact vector regime, every hybrid score with alpha*sim+(1-alpha)*bm25/max within 1e-6, incl. alpha=0 / alpha=1 orderings, after generated insert / overwrite / delete / re-add / restore / compress histories in English and Italian.",
+  "The repository's own analyser defines 'analysed term'. Repeated query terms and all-stop-word documents are a lenient class."),
+ "C11": ("vexec", "runtime monitoring: reference BFS over the edge-version model vs FindPath / subgraph / graph-scoped search / traversal",
+  "Random and hand-shaped small multigraphs (cycles, self-loops, parallel relations, soft-deleted and re-linked edges) are built through the engine; millions of FindPath, VExtractSubgraph, graph-scoped VSearch and VTraverse queries at now and at historical instants are compared with a plain BFS on the model: returned paths must be valid and shortest, a path within max depth must be found, reachable sets must be exact, traversals must terminate.",
+  "Graph-scoped search is judged in the exact HNSW regime (<= 8 vectors, M=16). Paths longer than max depth may or may not be returned (property silent)."),
+ "C15": ("pure", "runtime monitoring: law checking of the decay functions on generated inputs + clock-bracketed engine-level oracle",
+  "10^5-10^7 generated (model, half-life, age, count) inputs against the unexported decay functions (range, monotonicity, fixed points of each model), and thousands of memory-enabled indexes searched through both scoring APIs before/after VReinforce with every pinned / layer / timestamp / override combination; factors must be 1 where the property says so and inside the model bracket computed from clock samples otherwise.",
+  "The product reads time.Now().Unix(); the oracle brackets each call with the same clock and never places a case near a threshold."),
+ "C16": ("http", "runtime monitoring: state-based oracles over the full HTTP handler chain for every parsed route x token x hostile name",
+  "The route table is parsed from the current source; every route is driven with read / write / admin tokens restricted to namespaces, hostile resource names and index-carrying body fields. Oracles compare full state digests: a read token never changes state, a write token never administers, a namespace-restricted token never reads or changes another index; forged, altered (every byte), expired, revoked tokens are never served; issue/revoke survive restarts.",
+  "Seven recorded known findings (role from path suffix, _sys_auth KV exposure, admin not enforced, namespace taken from another field, auth state outside the journal, escaped path segments, graph id ambiguity) with probes and narrow guards, pending repair patches."),
+ "C17": ("http", "runtime monitoring: gateway driven with a stub embedder of designed distances and a counting upstream",
+  "Prompts are mapped to unit vectors at designed distances (<= T/2 or >= 2T) from forbidden prompts and cached queries; the reference decision (deny pattern on the latest user message or semantic proximity => 4xx and upstream untouched; cache hit only within distance and TTL, never for streaming; invalidation removes exactly the answers citing the document) is compared with what the real proxy does, counting upstream round trips.",
+  "Embedder and upstream are stubs. Seven recorded known findings (threshold direction, task-marker bypass, invalidation) with probes and guards, pending repair patches."),
+ "C19": ("http", "runtime monitoring: systematic JSON mutation of every data-plane route with panic-hook, digest, limit and confinement oracles",
+  "Valid request templates are derived by reflection from the handlers' request types and mutated (missing fields, every other JSON type, null, huge/negative numbers, deep nesting, non-JSON, hostile names); the panic-recovery hook must never fire, responses must be well formed, non-JSON / wrong-typed bodies get 4xx, a 4xx leaves the state digest unchanged, published limits are enforced, and nothing outside the data directory changes (sentinel tree), also after restart.",
+  "Requests are sequential (concurrency is C13). Seven recorded known findings (path escape via index names, process-fatal negative ef values, ...) with probes and guards, pending repair patches."),
  "C04": ("vexec", "runtime monitoring: reference-model oracle over generated operation histories",
   "Seeded random operation histories (adds, batches, imports, deletes, re-adds, merges, reinforce, evolve, graph ops, KV) interleaved with maintenance/admin ops run against the real engine; every read the property names is compared with a map-of-records reference model, and the model also predicts which calls must be accepted or rejected. Held on the executions observed, not a proof.",
   "Trusts the reference model (harness/vexec/model.go) as the reading of the property; vector equality per precision as fixed in DESIGN.md 2.4."),
@@ -38,6 +62,8 @@ def main():
         "engines": [
             {"name": "vexec", "path": "harness/vexec", "serves_properties": [], "kind_free_text": "reference model + executor + full read-out comparison against the real engine; child processes driven by ./check"},
             {"name": "vkit", "path": "harness/vkit", "serves_properties": [], "kind_free_text": "case scheduling, seeded PRNG, op log, violation/evidence writers, watchdog with goroutine-dump classification"},
+            {"name": "http", "path": "harness/checks/internal_server + harness/checks/pkg_proxy", "serves_properties": [], "kind_free_text": "full HTTP handler chain / AI gateway driven in-process with generated requests, state digests from vexec.Observe"},
+            {"name": "pure", "path": "harness/checks (white-box test files)", "serves_properties": [], "kind_free_text": "generators + law/reference oracles for pure functions and small components"},
         ],
         "checks": [],
         "not_applicable": [],
